@@ -1,6 +1,8 @@
 import Firebolt.Spec.Params
 import Firebolt.Generated.Source
 import Firebolt.Expected.Source
+import Firebolt.Generated.Closure
+import Firebolt.Expected.Closure
 /-!
 # C20 — Node and Kafka client parameters are validated and passed through faithfully
 
@@ -335,5 +337,9 @@ theorem source_hFloat64ConfigRequired : GeneratedSrc.hFloat64ConfigRequired = Ex
 /-! ### functions the model's assumptions rest on (construction, wiring, surrounding calls) are unchanged -/
 theorem source_kcSetup : GeneratedSrc.kcSetup = ExpectedSrc.kcSetup := by rfl
 theorem source_kpSetup : GeneratedSrc.kpSetup = ExpectedSrc.kpSetup := by rfl
+
+/-! ### influence closure: the pinned functions, and every function of the repository that writes a struct field or package
+variable they read, are unchanged (digests regenerated from /repo on every run; a difference names the functions) -/
+theorem closure_unchanged : GeneratedClo.C20 = ExpectedClo.C20 := by rfl
 
 end Firebolt.C20
